@@ -26,8 +26,11 @@ def valid_direct(host, port, prio=0.0):
 ODD_HOSTS = ("", " ", "a b", "\u0000", "x" * 300, "[::1]", "::1",
              "999.999.999.999", "-", ".", "..", "ü.example", "host\n",
              "10.1.0.1 ", "0", "localhost")
-ODD_PORTS = (0, -1, 65535, 65536, 10 ** 12, -70000)
-ODD_PRIOS = (-1, 1e308, -0.0, 10 ** 30, 3)
+ODD_PORTS = (0, -1, 65535, 65536, 10 ** 12, -70000, 10 ** 400)
+# (JSON numbers have no size limit: 10**400 is an int too large for a float;
+# Python's json also reads Infinity / NaN)
+ODD_PRIOS = (-1, 1e308, -0.0, 10 ** 30, 3, 10 ** 400, -(10 ** 400), 2 ** 1024,
+             float("inf"), float("-inf"), float("nan"), 5e-324)
 
 
 def mutate_direct(tape, base):
